@@ -172,6 +172,7 @@ impl Global {
 
         let epoch = self.epoch.load(Ordering::Relaxed);
         self.queue.push(bag.seal(epoch), guard);
+        vev!(BAG_SEALED, 0, epoch.value());
     }
 
     /// Collects several bags from the global queue and executes deferred functions in them.
